@@ -280,6 +280,9 @@ func predicate(tx *types.Transaction, input []byte, off int, pos int) (string, s
 		// signatures do not change the hash: same unsigned prefix with no signature / one more signature
 		for k, alt := range [][]byte{append(append([]byte{}, consumed[:ul]...), 0),
 			append(append(append([]byte{}, consumed[:ul]...), 1), 2, 0xaa, 0xbb, 1, 0xcc)} {
+			if len(alt) > types.MAX_TX_SIZE {
+				continue
+			}
 			t2, err := types.TransactionFromRawBytes(alt)
 			if err != nil {
 				return fmt.Sprintf("unsigned prefix with other signatures (#%d) rejected: %v", k, err), "tx-unsigned-prefix-not-self-contained"
@@ -362,13 +365,18 @@ func exec(line string) hx.Result {
 
 func sizedInvoke(total int) []byte {
 	// 2+4+8+8+20 = 42 header bytes, var-bytes code with a 5-byte length prefix, attribute count, signature count
-	codeLen := total - 42 - 5 - 2
-	s := &g.OntSpec{Ty: 0xd1, SigCount: -1, WidenIdx: -1, Code: bytes.Repeat([]byte{0x55}, codeLen)}
-	out, _, _ := s.Encode()
-	if len(out) != total {
-		panic("sizedInvoke")
+	for _, w := range []int{1, 3, 5} {
+		codeLen := total - 42 - w - 2
+		if codeLen < 0 {
+			continue
+		}
+		s := &g.OntSpec{Ty: 0xd1, SigCount: -1, WidenIdx: -1, Code: bytes.Repeat([]byte{0x55}, codeLen)}
+		out, _, _ := s.Encode()
+		if len(out) == total {
+			return out
+		}
 	}
-	return out
+	panic("sizedInvoke")
 }
 
 func corpus() []string {
